@@ -432,3 +432,42 @@ h!(q_zst_owning_elements_vec, 6, {
     drop(b);
     assert!(unsafe { ZV_DROPS } == 2 && n_live() == 0, "each zero-sized element is destroyed exactly once");
 });
+
+// ---- a re-entrant `T::clone`: the user's Clone releases ANOTHER owning handle of the same allocation while
+//      make_mut / make_unique / unwrap_or_clone is between its uniqueness test and its own release. The handle
+//      being replaced is then the last owner: the old value must be destroyed exactly once and its block freed.
+static mut SIBLING: Option<Arc<Reent>> = None;
+struct Reent(Dt);
+impl Clone for Reent {
+    fn clone(&self) -> Reent {
+        let s = unsafe { (*core::ptr::addr_of_mut!(SIBLING)).take() };
+        drop(s);
+        Reent(self.0.clone())
+    }
+}
+h!(q_reentrant_clone_releases_sibling, 5, {
+    let which: u8 = kani::any();
+    kani::assume(which < 3);
+    let v: u8 = kani::any();
+    let mut a = Arc::new(Reent(Dt::new(0, v)));
+    unsafe { *core::ptr::addr_of_mut!(SIBLING) = Some(a.clone()) };
+    assert!(Arc::count(&a) == 2 && n_live() == 1);
+    if which == 0 {
+        let r = Arc::make_mut(&mut a);
+        assert!(r.0.id == 8 && r.0.v == v, "make_mut: not a copy of the old value");
+    } else if which == 1 {
+        let u = Arc::make_unique(&mut a);
+        assert!(u.0.id == 8 && u.0.v == v);
+    } else {
+        let r = Arc::unwrap_or_clone(a);
+        assert!(r.0.id == 8 && r.0.v == v);
+        a = Arc::new(r);
+    }
+    assert!(drops(0) == 1, "the old value lost its last owner during the operation: it must be destroyed exactly once");
+    assert!(n_live() == 1 && nalloc() == 2, "the old block must be freed (exactly once) when its last owner is replaced");
+    assert!(Arc::count(&a) == 1);
+    drop(a);
+    assert!(drops(8) == 1 && n_live() == 0);
+    kani::cover!(which == 0);
+    kani::cover!(which == 2);
+});
